@@ -84,7 +84,8 @@ def spring_limits_inert(kinds, tiers):
     from brax.spring import joints
     A = Z3Alg()
     link, j, jd, mk, tau, raw = _link_dof(A, nd, kinds, True)
-    fn = {1: joints._one_dof, 2: joints._two_dof, 3: joints._three_dof}[nd]
+    from verif.contracts.common import by_name
+    fn = by_name({1: joints._one_dof, 2: joints._two_dof, 3: joints._three_dof}[nd], ('link', 'j', 'jd', 'dof', 'tau'))
     H = {t: cuts.uf_handler(t.split(':')[1]) for t in UFCUTS}
     with cut(*UFCUTS):
       I1 = Interp(A, cuts=H)
@@ -812,8 +813,10 @@ def obligations(tier):
     link, j, jd, mk, tau, raw = _link_dof(A, 1, 'h', True)
     H = {t: cuts.uf_handler(t.split(':')[1]) for t in UFCUTS}
     with cut(*UFCUTS):
-      f1 = sym_call(Interp(A, cuts=H), joints._one_dof, link, j, jd, mk(True), tau)
-      f2 = sym_call(Interp(A, cuts=H), joints._one_dof, link, j, jd, mk(False), tau)
+      from verif.contracts.common import by_name
+      one = by_name(joints._one_dof, ('link', 'j', 'jd', 'dof', 'tau'))
+      f1 = sym_call(Interp(A, cuts=H), one, link, j, jd, mk(True), tau)
+      f2 = sym_call(Interp(A, cuts=H), one, link, j, jd, mk(False), tau)
     return [], [a == b for a, b in zip(f1.ang, f2.ang)]
   obs.append(smt_custom('C06/canary/limits_inert_without_precondition', 'brax.spring.joints:_one_dof', 'CANARY: limits never matter (must be refuted)', canary, kind='canary'))
   return obs
